@@ -85,7 +85,13 @@ def run_scenario(item):
                 rep = w.admin_cmd('BAN 127.0.0.1 %d' % dur)
                 # BAN addresses a host: every replica on it; only the replica of this step matters to the model, the others
                 # are unbanned again right away
-                time.sleep(0.02)
+                # (the hook trace is a file written by another process: give the records of this command a moment to appear)
+                want_b = len([s2 for s2 in servers if s2 != 'p'])
+                deadline = time.time() + 0.6
+                while time.time() < deadline:
+                    if len([h for h in w.hooks()[hpos[0]:] if h['ev'] == 'banned']) >= want_b:
+                        break
+                    time.sleep(0.02)
                 d = hook_delta()
                 recs.append({'ev': 'admin_ban', 's': st['s'], 'duration_ds': dur * 10, 't': now_ds(), 'banned': d['banned'],
                              'unbanned': d['unbanned'], 'host_wide': True})
